@@ -252,11 +252,14 @@ func (be *VBackend) yield() {
 	}
 }
 
-// MonitorViolations returns what the always-on monitors of this backend found (I-ADDR, I-DRY).
+// MonitorViolations returns (and clears) what the always-on monitors of this backend found
+// (I-ADDR, I-DRY).
 func (be *VBackend) MonitorViolations() []string {
 	be.mu.Lock()
 	defer be.mu.Unlock()
-	return append([]string(nil), be.viol...)
+	v := be.viol
+	be.viol = nil
+	return v
 }
 
 func (be *VBackend) addViol(s string) {
